@@ -43,6 +43,21 @@ Theorem C04_step_refines_std : forall s o l', inv s -> op_wf o -> arg_ok (cap s)
 Proof. exact step_refines. Qed.
 Print Assumptions C04_step_refines_std.
 
+(* a pointer argument that points into the string itself (s.data() + off, n characters, off + n <= size()) denotes the
+   n characters of the contents from off on: with C04_step_refines_std, s.append(s.data() + off, n), s.insert(i, s.data()
+   + off, n), s.assign(s.data() + off, n) give what std::string gives for the same self-referential call *)
+Theorem C04_self_pointer : forall s off n, inv s -> 0 <= off -> 0 <= n -> off + n <= get_size s ->
+  s_prefix (self_src s off) n = Some (take n (drop off (contents s))).
+Proof. exact self_src_prefix. Qed.
+Print Assumptions C04_self_pointer.
+
+(* append(first, last) with forward / input iterators (no up-front check) and with random access iterators (checked up
+   front, fix commit 2a00b17) has the same outcome from every state *)
+Theorem C04_append_range_categories : forall s l, inv s ->
+  append_range_cat_m false s l = append_range_cat_m true s l.
+Proof. exact append_range_cat_same. Qed.
+Print Assumptions C04_append_range_categories.
+
 (* swap: BOTH objects exchange their contents and keep the invariant (in the tiny layout the size byte of a full
    string is one of the swapped characters) *)
 Theorem C04_swap_both : forall a b, inv a -> inv b -> cap b = cap a ->
